@@ -324,7 +324,9 @@ func c09PosTable(rd *mdl.Rendered) []any {
 	for id, p := range rd.Pos {
 		rows = append(rows, map[string]any{"id": id, "file": p.File, "line": p.Line})
 	}
-	sort.Slice(rows, func(i, j int) bool { return asInt(rows[i].(map[string]any)["id"]) < asInt(rows[j].(map[string]any)["id"]) })
+	sort.Slice(rows, func(i, j int) bool {
+		return asInt(rows[i].(map[string]any)["id"]) < asInt(rows[j].(map[string]any)["id"])
+	})
 	return rows
 }
 
